@@ -167,3 +167,25 @@ MANIFEST = {
     "note": "Concrete bytes are seeded representatives of each class; anything not WellFormed only has to give value-or-error; "
             "text that is not UTF-8 is exempt from equality; pion's own SetRemoteDescription is outside the property.",
 }
+
+
+# --- extension part built separately: the NAT probe server probetest/probetest.go (spec/ProbeTest), see notes/ProbeTest.md
+_run_core = run
+
+
+def run(chk, args):
+    import json as _json
+    import threading as _threading
+    only = set(args.only.split(",")) if args.only else None
+    if args.replay:
+        with open(args.replay) as fh:
+            rp = _json.load(fh)["replay"]
+        if isinstance(rp, dict) and str(rp.get("kind", "")).startswith("probetest"):
+            from checks import c13_probetest
+            return c13_probetest.replay(chk, rp)
+        return _run_core(chk, args)
+    if only is None or only - {"probetest"}:
+        _run_core(chk, args)
+    if only is None or "probetest" in only:
+        from checks import c13_probetest
+        c13_probetest.run_probetest_part(chk, args)
